@@ -152,6 +152,13 @@ pub fn header_pairs() -> Vec<(Item, Item)> {
         t("a/b\r"),
         t("\u{a0}a/b"),
         t("a/b\u{3000}"),
+        t("a/b\u{a0}c=d"),
+        t("a/b\u{2028}c"),
+        t("a\u{3000}/b"),
+        t("a/\u{85}b"),
+        t("a/b\u{2003};c=d"),
+        t("a/b c"),
+        t("a/b;\u{e9}"),
         t("\u{e9}/x"),
         t("\u{65e5}\u{672c}/x"),
         t("\u{65e5}/x"),
